@@ -344,4 +344,358 @@ theorem evalDecls_append {cfg : Cfg} {fr fr1 : Frame} {k : Nat} {pre : List Decl
     simp only [hnm]
     exact ih hn'
 
+/-! ## Where violations come from (the converse direction: `Sub` is complete) -/
+
+/-- the three places where a violation is raised: the call counter of `callUser`, the depth check
+and the tail-iteration check of `tramp` -/
+inductive Origin (cfg : Cfg) : Conf → Viol → St → Prop
+  | calls (n h c args) (st : St) (l : Nat) : firstErr args = none → cfg.callLimit = some l → st.calls + 1 ≥ l →
+      Origin cfg (.callUser (n + 1) h c args st) .calls { st with calls := st.calls + 1 }
+  | depth (n h f d env args rec st) : depthTrips cfg h = true →
+      Origin cfg (.tramp (n + 1) h (.clos f d env) args rec st) .depth st
+  | recursion (n h) (f : Func) (d env args rec st ps fr' st' newArgs st'') : depthTrips cfg h = false →
+      bindParams f.params args d = some ps →
+      Core.evalDecls n cfg (bodyFrame h f d env ps) f.decls st = (.ok fr', st') →
+      Core.eval n cfg fr' f.body true st' = (.tail newArgs, st'') → recTrips cfg rec = true →
+      Origin cfg (.tramp (n + 1) h (.clos f d env) args rec st) .recursion st''
+
+abbrev FromSub (cfg : Cfg) (c : Conf) (k : Viol) (s : St) : Prop := ∃ c', Sub cfg c' c ∧ c'.viol cfg k s
+
+theorem origin_eval {cfg n fr e tail st k s} (h : eval (n + 1) cfg fr e tail st = (.viol k, s)) :
+    FromSub cfg (.eval (n + 1) fr e tail st) k s := by
+  cases e with
+  | int _ => simp [eval] at h
+  | bool _ => simp [eval] at h
+  | str _ => simp [eval] at h
+  | var _ => simp only [eval] at h; split at h <;> cases h
+  | tup es =>
+    rw [eval] at h
+    split at h
+    · cases h
+    · rename_i heq; cases h; exact ⟨_, Sub.tupItems n fr es tail st, heq⟩
+  | arr es =>
+    rw [eval] at h
+    split at h
+    · cases h
+    · rename_i heq; cases h; exact ⟨_, Sub.arrItems n fr es tail st, heq⟩
+  | item e i =>
+    rw [eval] at h
+    split at h
+    · split at h <;> cases h
+    · cases h
+    · cases h
+    · cases h
+    · exact ⟨_, Sub.itemOf n fr e i tail st, h⟩
+  | lam f =>
+    rw [eval] at h
+    exact ⟨_, Sub.lamClos n fr f tail st, h⟩
+  | callE fe args =>
+    rw [eval] at h
+    split at h
+    · cases h
+    · rename_i c st' hne heq
+      refine ⟨_, Sub.calleeCall n fr fe args tail st c st' heq ?_, h⟩
+      cases c <;> simp_all [Val.isErr]
+    · cases h
+    · exact ⟨_, Sub.callee n fr fe args tail st, h⟩
+  | call f args =>
+    rw [eval] at h
+    split at h
+    · rename_i sn sc hself
+      split at h
+      · rename_i hc
+        simp only [Bool.and_eq_true, decide_eq_true_eq, Option.isNone_iff_eq_none] at hc
+        obtain ⟨rfl, hl⟩ := hc
+        split at h
+        · rename_i ht
+          simp only [Bool.and_eq_true] at ht
+          obtain ⟨rfl, htco⟩ := ht
+          split at h
+          · cases h
+          · rename_i heq; cases h
+            exact ⟨_, Sub.tailArgs n fr f args st sc hself hl htco, heq⟩
+        · rename_i ht
+          exact ⟨_, Sub.selfCall n fr f args tail st sc hself hl (by simpa using ht), h⟩
+      · rename_i hc
+        refine ⟨_, Sub.namedCall n fr f args tail st ?_, h⟩
+        intro sn' sc' hs'
+        rw [hself] at hs'; cases hs'
+        exact (Bool.not_eq_true _).mp hc
+    · rename_i hself
+      refine ⟨_, Sub.namedCall n fr f args tail st ?_, h⟩
+      intro sn' sc' hs'
+      rw [hself] at hs'; cases hs'
+
+theorem origin_callNamed {cfg n fr f args tail st k s} (h : callNamed (n + 1) cfg fr f args tail st = (.viol k, s)) :
+    FromSub cfg (.callNamed (n + 1) fr f args tail st) k s := by
+  rw [callNamed] at h
+  split at h
+  · rename_i c hg; exact ⟨_, Sub.boundCall n fr f args tail st c hg, h⟩
+  · rename_i hg; exact ⟨_, Sub.nativeCall n fr f args tail st hg, h⟩
+
+theorem origin_callVal {cfg n fr c args tail st k s} (h : callVal (n + 1) cfg fr c args tail st = (.viol k, s)) :
+    FromSub cfg (.callVal (n + 1) fr c args tail st) k s := by
+  cases c with
+  | clos f d env =>
+    rw [callVal] at h
+    split at h
+    · rename_i vs st' heq; exact ⟨_, Sub.callBody n fr f d env args tail st vs st' heq, h⟩
+    · rename_i heq; cases h; exact ⟨_, Sub.callArgs n fr f d env args tail st, heq⟩
+  | _ => simp [callVal] at h
+
+theorem origin_evalList {cfg n fr es st k s} (h : evalList (n + 1) cfg fr es st = (.error (.viol k), s)) :
+    FromSub cfg (.evalList (n + 1) fr es st) k s := by
+  cases es with
+  | nil => simp [evalList] at h
+  | cons e rest =>
+    rw [evalList] at h
+    split at h
+    · cases h
+    · rename_i v st' hne heq
+      have hv : v.isErr = false := by cases v <;> simp_all [Val.isErr]
+      split at h
+      · cases h
+      · exact ⟨_, Sub.listRest n fr e rest st v st' heq hv, h⟩
+    · cases h
+    · rename_i r st' _ _ _ heq
+      cases h
+      exact ⟨_, Sub.listHead n fr e rest st, heq⟩
+
+theorem origin_mkClos {cfg n fr f st k s} (h : mkClos (n + 1) cfg fr f st = (.viol k, s)) :
+    FromSub cfg (.mkClos (n + 1) fr f st) k s := by
+  rw [mkClos] at h
+  split at h
+  · cases h
+  · rename_i heq; cases h; exact ⟨_, Sub.closDflts n fr f st, heq⟩
+
+theorem origin_evalDflts {cfg n fr ps st k s} (h : evalDflts (n + 1) cfg fr ps st = (.error (.viol k), s)) :
+    FromSub cfg (.evalDflts (n + 1) fr ps st) k s := by
+  cases ps with
+  | nil => simp [evalDflts] at h
+  | cons p rest =>
+    rw [evalDflts] at h
+    split at h
+    · rename_i hp; exact ⟨_, Sub.dfltSkip n fr p rest st hp, h⟩
+    · rename_i d hp
+      split at h
+      · rename_i v st' heq
+        split at h
+        · cases h
+        · exact ⟨_, Sub.dfltRest n fr p rest st d v st' hp heq, h⟩
+      · cases h
+      · rename_i r st' _ _ heq
+        cases h
+        exact ⟨_, Sub.dfltHead n fr p rest st d hp, heq⟩
+
+theorem origin_callUser {cfg n ht c args st k s} (h : callUser (n + 1) cfg ht c args st = (.viol k, s)) :
+    Origin cfg (.callUser (n + 1) ht c args st) k s ∨ FromSub cfg (.callUser (n + 1) ht c args st) k s := by
+  rw [callUser] at h
+  split at h
+  · cases h
+  · rename_i hf
+    split at h
+    · rename_i l hl
+      simp only [] at h
+      split at h
+      · rename_i hc; cases h; exact .inl (Origin.calls n ht c args st l hf hl hc)
+      · rename_i hc; exact .inr ⟨_, Sub.userTrampCounted n ht c args st l hf hl hc, h⟩
+    · rename_i hl; exact .inr ⟨_, Sub.userTramp n ht c args st hf hl, h⟩
+
+theorem origin_evalDecls {cfg n fr ds st k s} (h : evalDecls (n + 1) cfg fr ds st = (.error (.viol k), s)) :
+    FromSub cfg (.evalDecls (n + 1) fr ds st) k s := by
+  cases ds with
+  | nil => simp [evalDecls] at h
+  | cons d rest =>
+    cases d with
+    | letD x e =>
+      rw [evalDecls] at h
+      split at h
+      · rename_i v st' heq; exact ⟨_, Sub.letRest n fr x e rest st v st' heq, h⟩
+      · cases h
+      · rename_i r st' _ _ heq; cases h; exact ⟨_, Sub.letRhs n fr x e rest st, heq⟩
+    | fnD f =>
+      rw [evalDecls] at h
+      split at h
+      · rename_i c st' heq
+        split at h
+        · rename_i nm hnm; exact ⟨_, Sub.fnRest n fr f rest st c st' nm heq hnm, h⟩
+        · cases h
+      · cases h
+      · rename_i r st' _ _ heq; cases h; exact ⟨_, Sub.fnClos n fr f rest st, heq⟩
+
+theorem tramp_depth (n : Nat) (cfg : Cfg) (h : Nat) (f : Func) (d : List Val) (env : List (String × Val))
+    (args : List Val) (rec : Nat) (st : St) (hd : depthTrips cfg h = true) :
+    tramp (n + 1) cfg h (.clos f d env) args rec st = (.viol .depth, st) := by
+  rw [tramp]
+  unfold depthTrips at hd
+  cases hdl : cfg.depthLimit <;> simp_all
+
+theorem tramp_arity (n : Nat) (cfg : Cfg) (h : Nat) (f : Func) (d : List Val) (env : List (String × Val))
+    (args : List Val) (rec : Nat) (st : St) (hd : depthTrips cfg h = false)
+    (hb : bindParams f.params args d = none) :
+    tramp (n + 1) cfg h (.clos f d env) args rec st = (.stuck "arity", st) := by
+  rw [tramp]
+  unfold depthTrips at hd
+  cases hdl : cfg.depthLimit <;> simp_all
+
+theorem origin_tramp {cfg n ht c args rec st k s} (h : tramp (n + 1) cfg ht c args rec st = (.viol k, s)) :
+    Origin cfg (.tramp (n + 1) ht c args rec st) k s ∨ FromSub cfg (.tramp (n + 1) ht c args rec st) k s := by
+  cases c with
+  | clos f d env =>
+    cases hd : depthTrips cfg ht with
+    | true =>
+      left
+      rw [tramp_depth _ _ _ _ _ _ _ _ _ hd] at h; cases h
+      exact Origin.depth n ht f d env args rec st hd
+    | false =>
+      cases hb : bindParams f.params args d with
+      | none =>
+        rw [tramp_arity _ _ _ _ _ _ _ _ _ hd hb] at h; cases h
+      | some ps =>
+        rw [tramp_unfold _ _ _ _ _ _ _ _ _ _ hd hb] at h
+        split at h
+        · rename_i heq; cases h; exact .inr ⟨_, Sub.bodyDecls n ht f d env args rec st ps hd hb, heq⟩
+        · rename_i fr' st' heq
+          split at h
+          · rename_i newArgs st'' heq2
+            cases hr : recTrips cfg rec with
+            | true =>
+              simp only [hr, if_true] at h; cases h
+              exact .inl (Origin.recursion n ht f d env args rec st ps fr' st' newArgs _ hd hb heq heq2 hr)
+            | false =>
+              simp only [hr, Bool.false_eq_true, if_false] at h
+              exact .inr ⟨_, Sub.trampLoop n ht f d env args rec st ps fr' st' newArgs st'' hd hb heq heq2 hr, h⟩
+          · exact .inr ⟨_, Sub.bodyExpr n ht f d env args rec st ps fr' st' hd hb heq, h⟩
+  | _ => simp [tramp] at h
+
+theorem prim_ne_viol (f : String) (vs : List Val) (k : Viol) : prim f vs ≠ .viol k := by
+  unfold prim
+  split <;> (try split) <;> simp
+
+theorem origin_builtin {cfg n fr f args tail st k s} (h : builtin (n + 1) cfg fr f args tail st = (.viol k, s)) :
+    FromSub cfg (.builtin (n + 1) fr f args tail st) k s := by
+  rcases builtin_shape f args with ⟨c, a, b, rfl, rfl⟩ | ⟨a, b, rfl, rfl⟩ | ⟨a, b, rfl, rfl⟩ | ⟨a, b, rfl, rfl⟩ |
+    ⟨a, rfl, rfl⟩ | ⟨a, rfl, rfl⟩ | hd
+  · rw [builtin] at h
+    split at h
+    · rename_i t st' heq; exact ⟨_, Sub.ifBranch n fr c a b tail st t st' heq, h⟩
+    · cases h
+    · cases h
+    · cases h
+    · exact ⟨_, Sub.ifCond n fr c a b tail st, h⟩
+  · rw [builtin] at h
+    split at h
+    · rename_i st' heq; exact ⟨_, Sub.andSecond n fr a b tail st st' heq, h⟩
+    · cases h
+    · cases h
+    · cases h
+    · cases h
+    · exact ⟨_, Sub.andFirst n fr a b tail st, h⟩
+  · rw [builtin] at h
+    split at h
+    · rename_i st' heq; exact ⟨_, Sub.orSecond n fr a b tail st st' heq, h⟩
+    · cases h
+    · cases h
+    · cases h
+    · cases h
+    · exact ⟨_, Sub.orFirst n fr a b tail st, h⟩
+  · rw [builtin] at h
+    split at h
+    · rename_i m st' heq; exact ⟨_, Sub.ifErrorSecond n fr a b tail st m st' heq, h⟩
+    · cases h
+    · cases h
+    · exact ⟨_, Sub.ifErrorFirst n fr a b tail st, h⟩
+  · rw [builtin] at h
+    split at h
+    · cases h
+    · cases h
+    · exact ⟨_, Sub.isErrorArg n fr a tail st, h⟩
+  · rw [builtin] at h
+    split at h
+    · cases h
+    · split at h <;> cases h
+    · cases h
+    · exact ⟨_, Sub.displayArg n fr a tail st, h⟩
+  · rw [hd] at h
+    unfold strictCall at h
+    split at h
+    · rename_i hf
+      split at h
+      · rename_i vs st' heq
+        simp only [Prod.mk.injEq] at h
+        exact absurd h.1 (prim_ne_viol f vs k)
+      · rename_i heq; cases h; exact ⟨_, Sub.strictArgs n fr f args tail st hf, heq⟩
+    · cases h
+
+def Conf.fuel : Conf → Nat
+  | .eval n .. | .callNamed n .. | .callVal n .. | .evalList n .. | .mkClos n .. | .evalDflts n ..
+  | .callUser n .. | .tramp n .. | .evalDecls n .. | .builtin n .. => n
+
+theorem Sub.fuel {cfg : Cfg} {c' c : Conf} (h : Sub cfg c' c) : c.fuel = c'.fuel + 1 := by
+  cases h <;> rfl
+
+/-- a violation is either raised by the invocation itself (one of the three limit checks) or is the
+violation of one of the sub-evaluations listed in `Sub` — so `Sub` misses no call site through which
+a violation could travel -/
+theorem viol_origin_step {cfg : Cfg} {c : Conf} {k : Viol} {s : St} (h : c.viol cfg k s) :
+    Origin cfg c k s ∨ FromSub cfg c k s := by
+  cases c with
+  | eval n fr e tail st =>
+    cases n with
+    | zero => simp [Conf.viol, Core.eval] at h
+    | succ n => exact .inr (origin_eval h)
+  | callNamed n fr f args tail st =>
+    cases n with
+    | zero => simp [Conf.viol, Core.callNamed] at h
+    | succ n => exact .inr (origin_callNamed h)
+  | callVal n fr c args tail st =>
+    cases n with
+    | zero => simp [Conf.viol, Core.callVal] at h
+    | succ n => exact .inr (origin_callVal h)
+  | evalList n fr es st =>
+    cases n with
+    | zero => simp [Conf.viol, Core.evalList] at h
+    | succ n => exact .inr (origin_evalList h)
+  | mkClos n fr f st =>
+    cases n with
+    | zero => simp [Conf.viol, Core.mkClos] at h
+    | succ n => exact .inr (origin_mkClos h)
+  | evalDflts n fr ps st =>
+    cases n with
+    | zero => simp [Conf.viol, Core.evalDflts] at h
+    | succ n => exact .inr (origin_evalDflts h)
+  | callUser n ht c args st =>
+    cases n with
+    | zero => simp [Conf.viol, Core.callUser] at h
+    | succ n => exact origin_callUser h
+  | tramp n ht c args rec st =>
+    cases n with
+    | zero => simp [Conf.viol, Core.tramp] at h
+    | succ n => exact origin_tramp h
+  | evalDecls n fr ds st =>
+    cases n with
+    | zero => simp [Conf.viol, Core.evalDecls] at h
+    | succ n => exact .inr (origin_evalDecls h)
+  | builtin n fr f args tail st =>
+    cases n with
+    | zero => simp [Conf.viol, Core.builtin] at h
+    | succ n => exact .inr (origin_builtin h)
+
+/-- every violation comes from a limit check somewhere in the dynamic extent -/
+theorem viol_origin {cfg : Cfg} {c : Conf} {k : Viol} {s : St} (h : c.viol cfg k s) :
+    ∃ c', Within cfg c' c ∧ Origin cfg c' k s := by
+  generalize hn : c.fuel = n
+  induction n generalizing c with
+  | zero =>
+    rcases viol_origin_step h with ho | ⟨c', hs, _⟩
+    · exact ⟨c, .refl _, ho⟩
+    · have := hs.fuel; omega
+  | succ n ih =>
+    rcases viol_origin_step h with ho | ⟨c', hs, hv'⟩
+    · exact ⟨c, .refl _, ho⟩
+    · have hf := hs.fuel
+      obtain ⟨c'', hw, ho⟩ := ih hv' (by omega)
+      exact ⟨c'', hw.trans hs.within, ho⟩
+
+
 end XrayModel.Core
